@@ -47,7 +47,7 @@ FLOORS = {'*': {**{f'{v}:{o}': 30 for v in ('jsonschema', 'pydantic') for o in (
                 'client-sets-excluded': 30, 'client-sets-context': 30, 'style:view': 100, 'style:async': 100, 'passing:named': 300,
                 'passing:positional': 300, 'refusal-data-checked': 300, 'pydantic:live-exception-in-error': 5,
                 'jsonschema:required-or-additional': 50, 'no-arguments-call': 50, 'twin-registration-calls': 100,
-                'pydantic:default-none-on-non-optional': 50, 'jsonschema:declares-draft-04': 50, 'pydantic:postponed-annotations': 100, 'dispatcher-from-add_endpoint': 100}}
+                'pydantic:default-none-on-non-optional': 50, 'pydantic:unhashable-default': 30, 'jsonschema:declares-draft-04': 50, 'pydantic:postponed-annotations': 100, 'dispatcher-from-add_endpoint': 100}}
 
 ABSENT = '__absent__'
 
@@ -188,6 +188,8 @@ def render(params, with_ctx, skip, style, annotate):
             s += f': {ann}'
         if dflt == 'none':
             s += ' = None'          # the common `limit: int = None`: omitting it is fine, an explicit null is not an int
+        elif dflt == 'empty':
+            s += ' = []' if (ann or '').startswith('List') else ' = {}'     # the (in)famous mutable default: unhashable
         elif dflt:
             s += f" = {'None' if (ann or '').startswith('Optional') else repr('d_' + name)}" if annotate and ann else f" = {'d_' + name!r}"
         parts.append(s)
@@ -503,6 +505,10 @@ def run_pd(ctx, params, with_ctx, skip, style, coerce, postponed=False, via=None
                 sub.remove(rng.randrange(len(plist)))
             cases.append(({names[i]: entries[i][0] for i in sub}, [entries[i] for i in sub]))
     cases.append(({**{n: ANNOT[p[3]][0][0] for n, p in zip(names, plist)}, 'extra': 1}, None))
+    unhashable = any(p[2] == 'empty' for p in plist)
+    tag = ':unhashable-default' if unhashable else (':postponed-annotations' if postponed else '')
+    if unhashable:
+        ctx.hit('pydantic:unhashable-default')
     for i, p in enumerate(plist):
         if p[2] == 'none':
             ctx.hit('pydantic:default-none-on-non-optional')
@@ -517,7 +523,7 @@ def run_pd(ctx, params, with_ctx, skip, style, coerce, postponed=False, via=None
     goods = {n: next(e[0] for e in ANNOT[p[3]] if e[1] in ('ok', 'coerce')) for n, p in zip(names, plist)}
     for n_case, (case, entries) in enumerate(cases):
         if twin and n_case % 5 == 0:
-            twin_registration_call(ctx, disp, is_async, ns, src, goods, True, 'pydantic', tag=':postponed-annotations' if postponed else '')
+            twin_registration_call(ctx, disp, is_async, ns, src, goods, True, 'pydantic', tag=tag)
         st, out, CTX = call(disp, is_async, case, ns)
         m = bind_model(plist, case, skip)
         statuses = {}
@@ -542,7 +548,7 @@ def run_pd(ctx, params, with_ctx, skip, style, coerce, postponed=False, via=None
             ctx.hit('pydantic:live-exception-in-error')
         verdict, rec = judge_common(ctx, fam, cls, wit, st, out, ns, CTX, conforms,
                                     kind + (':live-exception-in-details' if live else '') if kind else None, with_ctx, style,
-                                    tag=':postponed-annotations' if postponed else '')
+                                    tag=tag)
         if verdict == 'refused':
             ctx.ok(fam + ':refused-' + kind, cls, sample=wit)
         if verdict != 'ran':
@@ -564,6 +570,8 @@ def run_pd(ctx, params, with_ctx, skip, style, coerce, postponed=False, via=None
                     ctx.hit('pydantic:coercion-off-accepted')
             else:
                 want = None if (p[3].startswith('Optional') or p[2] == 'none') else 'd_' + name
+                if p[2] == 'empty':
+                    want = [] if p[3].startswith('List') else {}
                 if got != want:
                     problem = 'default-not-applied'
         if skip and rec.get('skip') != 'skip-default':
@@ -616,7 +624,9 @@ def gen(ctx):
                 a = rng.choice(anns)
                 if dflt and (a in ('Item', 'Color', 'Picky', 'List[int]', 'Dict[str, int]', 'int', 'float', 'PositiveInt')
                              or a.startswith('Annotated')):
-                    if rng.random() < 0.4:
+                    if a in ('List[int]', 'Dict[str, int]') and rng.random() < 0.5:
+                        dflt = 'empty'         # a mutable (unhashable) default of the annotated type
+                    elif rng.random() < 0.4:
                         dflt = 'none'          # ... or be the customary None on a non-Optional annotation
                     else:
                         a = rng.choice(['str', 'Optional[int]'])       # defaults must conform to the annotation
@@ -633,6 +643,8 @@ def gen(ctx):
                 yield 'pd', dict(params=[['a', 'PK', False, a], ['b', 'KO', True, 'str']], with_ctx=True, skip=True, style=style, coerce=coerce)
                 if not a.startswith('Optional'):
                     yield 'pd', dict(params=[['a', 'PK', 'none', a], ['b', 'KO', 'none', a]], with_ctx=False, skip=False, style=style, coerce=coerce)
+                if a in ('List[int]', 'Dict[str, int]'):
+                    yield 'pd', dict(params=[['a', 'PK', False, 'int'], ['b', 'PK', 'empty', a]], with_ctx=False, skip=False, style=style, coerce=coerce)
     for style in ('def', 'view'):
         for f in (0, 4, 10):
             yield 'js', dict(params=[['a', 'PK', False], ['b', 'KO', True]], frags=[f, 0], required=[], additional=None,
